@@ -7,9 +7,10 @@
      internal/restclient/restclient.tmpl:16-21,34-37,42-45,54-56   the `return {{$errret}}` exits before the call
      internal/restclient/restclient.tmpl:94-130  c.client.Do, the status switch, the decode tail
 
-   The analysis code (cook) is transcribed literally; the template text of the
-   method tail is given an abstract syntax (the list of return "slots") and a
-   semantics ([run_tail]): what the emitted Go statements do when executed.
+   The analysis code (cook) is transcribed literally; the template is modelled
+   by [emit], which renders the method body from the first fallible call on as
+   a list of abstract Go statements ([stmt]), and by [exec], the meaning of
+   these statements (local variables resp_, err, r_, the deferred Close).
 
    Kept abstract (Section variables, instantiated by the correspondence with
    what the real packages do; the property does not talk about them):
@@ -147,7 +148,8 @@ Variable X : Type.
    or one received from another package and passed on *)
 Inductive err :=
 | EText (s : string)
-| EForeign (x : X).
+| EForeign (x : X)
+| EEof.                     (* the value io.EOF itself (compared with == by the generated code) *)
 
 (* resp_.Body: the bytes the reader delivers, then io.EOF (None) or a read
    error (Some x) *)
@@ -194,44 +196,159 @@ Definition classify (status : Z) (b : body) : option err * list bevent :=
     (Some (EText ("not supported error " ++ dec status)), [])
   else (None, []).
 
-(* `return {{$errret}}` with err = e *)
-Definition errret (c : cooked) (e : err) : list slot := (repeat SNil (ck_nils c) ++ [SErr e])%list.
+(* ---- the emitted Go of one method, from the first fallible call on ---- *)
 
-(* the statements after `resp_, err := c.client.Do(req_)` *)
-Definition run_tail (c : cooked) (o : outcome) : list slot * list bevent :=
-  match o with
-  | OFail _ x => (errret c (EForeign x), [])
-  | OResp r =>
-      (* defer resp_.Body.Close() *)
-      let '(e, ev) := classify (r_status r) (r_body r) in
-      let '(ty, isptr) := ck_result c in
-      if String.eqb ty "" then             (* {{if not $result.Type}} *)
-        match e with
-        | Some e => ([SResp r; SErr e], (ev ++ [BClose])%list)
-        | None => ([SResp r; SNil], (ev ++ [BClose])%list)
-        end
-      else
-        match e with
-        | Some e => ([SNil; SResp r; SErr e], (ev ++ [BClose])%list)
-        | None =>
-            (* var r_ T; err = json.NewDecoder(resp_.Body).Decode(&r_) *)
-            let '(v, de) := decode ty (r_body r) in
-            (* if err == io.EOF { err = nil } *)
-            let de := match de with Some DEof => None | _ => de end in
-            match de with
-            | Some (DOther x) => ([SNil; SResp r; SErr (EForeign x)], (ev ++ [BDecode; BClose])%list)
-            | Some DEof => ([SNil; SResp r; SNil], (ev ++ [BDecode; BClose])%list)   (* unreachable *)
-            | None => ([if isptr then SAddr v else SVal v; SResp r; SNil], (ev ++ [BDecode; BClose])%list)
-            end
-        end
+(* the expressions that occur in the return statements *)
+Inductive rexpr :=
+| XNil          (* nil   *)
+| XResp         (* resp_ *)
+| XErr          (* err   *)
+| XVar          (* r_    *)
+| XAddrVar.     (* &r_   *)
+
+Inductive stmt :=
+| GCall (st : stage) (ret : list rexpr)
+    (* x, err := <the call of stage st>; if err != nil { return <ret> }
+       StJoinPath   url_, err := url.JoinPath(c.conf.BaseURL(), path_)
+       StMarshal    bodyJson_, err := json.Marshal(p)           (POST/PUT/PATCH only)
+       StNewRequest req_, err := http.NewRequest[WithContext](...)
+       StDo         resp_, err := c.client.Do(req_)                                  *)
+| GDeferClose                       (* defer resp_.Body.Close() *)
+| GStatusSwitch                     (* switch { case resp_.StatusCode >= 500: ... } : [classify] *)
+| GIfErrReturn (ret : list rexpr)   (* if err != nil { return <ret> } *)
+| GDecode (ty : string)             (* var r_ <ty>; err = json.NewDecoder(resp_.Body).Decode(&r_) *)
+| GIgnoreEOF                        (* if err == io.EOF { err = nil } *)
+| GReturn (ret : list rexpr).       (* return <ret> *)
+
+(* {{$errret}} = ErrReturnMap[method] = "nil, " x (n-1) + "err" *)
+Definition errret (c : cooked) : list rexpr := (repeat XNil (ck_nils c) ++ [XErr])%list.
+
+(* restclient.tmpl:34-130 rendered for one method: the template's conditionals
+   are evaluated here ({{if in $httpmethod $.BodyHTTPMethods}}, {{if not
+   $result.Type}}, {{if $result.IsPtr}}{{$ptr = "&"}}) *)
+Definition emit (c : cooked) (body_verb : bool) : list stmt :=
+  let er := errret c in
+  let '(ty, isptr) := ck_result c in
+  ([GCall StJoinPath er] ++
+   (if body_verb then [GCall StMarshal er] else []) ++
+   [GCall StNewRequest er; GCall StDo er; GDeferClose; GStatusSwitch] ++
+   (if String.eqb ty ""
+    then [GIfErrReturn [XResp; XErr]; GReturn [XResp; XNil]]
+    else [GIfErrReturn [XNil; XResp; XErr];
+          GDecode ty; GIgnoreEOF;
+          GIfErrReturn [XNil; XResp; XErr];
+          GReturn [if isptr then XAddrVar else XVar; XResp; XNil]]))%list.
+
+(* ---- what these statements do ---- *)
+
+(* the local variables resp_, err, r_; what was done to the body; whether the
+   deferred Close is registered *)
+Record mstate := {
+  m_resp : option response;
+  m_err : option err;
+  m_var : option V;
+  m_ev : list bevent;
+  m_defer : bool
+}.
+Definition m0 : mstate :=
+  {| m_resp := None; m_err := None; m_var := None; m_ev := []; m_defer := false |}.
+Definition set_resp (s : mstate) (r : response) : mstate :=
+  {| m_resp := Some r; m_err := m_err s; m_var := m_var s; m_ev := m_ev s; m_defer := m_defer s |}.
+Definition set_err (s : mstate) (e : option err) : mstate :=
+  {| m_resp := m_resp s; m_err := e; m_var := m_var s; m_ev := m_ev s; m_defer := m_defer s |}.
+Definition set_var (s : mstate) (v : V) : mstate :=
+  {| m_resp := m_resp s; m_err := m_err s; m_var := Some v; m_ev := m_ev s; m_defer := m_defer s |}.
+Definition add_ev (s : mstate) (ev : list bevent) : mstate :=
+  {| m_resp := m_resp s; m_err := m_err s; m_var := m_var s; m_ev := (m_ev s ++ ev)%list; m_defer := m_defer s |}.
+Definition set_defer (s : mstate) : mstate :=
+  {| m_resp := m_resp s; m_err := m_err s; m_var := m_var s; m_ev := m_ev s; m_defer := true |}.
+
+(* None: the expression uses a variable that is not set (cannot happen in an emitted body) *)
+Definition eval (s : mstate) (e : rexpr) : option slot :=
+  match e with
+  | XNil => Some SNil
+  | XResp => option_map SResp (m_resp s)
+  | XErr => Some (match m_err s with Some e => SErr e | None => SNil end)
+  | XVar => option_map SVal (m_var s)
+  | XAddrVar => option_map SAddr (m_var s)
+  end.
+Fixpoint eval_all (s : mstate) (es : list rexpr) : option (list slot) :=
+  match es with
+  | [] => Some []
+  | e :: es' =>
+      match eval s e, eval_all s es' with
+      | Some x, Some xs => Some (x :: xs)
+      | _, _ => None
+      end
+  end.
+(* return: evaluate the operands, then run the deferred Close *)
+Definition do_return (s : mstate) (es : list rexpr) : option (list slot * list bevent) :=
+  match eval_all s es with
+  | Some sl => Some (sl, (m_ev s ++ (if m_defer s then [BClose] else []))%list)
+  | None => None
   end.
 
-(* a generated method: shoot stops with a fatal message, or the method exists
-   and returns these values *)
-Definition method_returns (results : list field) (o : outcome) : fatal + (list slot * list bevent) :=
+Definition stage_eqb (a b : stage) : bool :=
+  match a, b with
+  | StJoinPath, StJoinPath | StMarshal, StMarshal | StNewRequest, StNewRequest | StDo, StDo => true
+  | _, _ => false
+  end.
+
+Definition err_of_derr (d : derr) : err :=
+  match d with DEof => EEof | DOther x => EForeign x end.
+
+(* execution under the scenario o (which call fails, or which response Do
+   returns).  None: the scenario does not fit the body (the failing call is not
+   part of it), or the statements end without a return *)
+Fixpoint exec (o : outcome) (p : list stmt) (s : mstate) : option (list slot * list bevent) :=
+  match p with
+  | [] => None
+  | GCall st ret :: p' =>
+      match o with
+      | OFail st' x =>
+          if stage_eqb st st' then do_return (set_err s (Some (EForeign x))) ret
+          else match st with StDo => None | _ => exec o p' s end
+      | OResp r =>
+          match st with StDo => exec o p' (set_resp s r) | _ => exec o p' s end
+      end
+  | GDeferClose :: p' => exec o p' (set_defer s)
+  | GStatusSwitch :: p' =>
+      match m_resp s with
+      | None => None
+      | Some r =>
+          let '(e, ev) := classify (r_status r) (r_body r) in
+          exec o p' (add_ev (match e with Some _ => set_err s e | None => s end) ev)
+      end
+  | GIfErrReturn ret :: p' =>
+      match m_err s with Some _ => do_return s ret | None => exec o p' s end
+  | GDecode ty :: p' =>
+      match m_resp s with
+      | None => None
+      | Some r =>
+          let '(v, de) := decode ty (r_body r) in
+          exec o p' (add_ev (set_err (set_var s v) (option_map err_of_derr de)) [BDecode])
+      end
+  | GIgnoreEOF :: p' =>
+      exec o p' (match m_err s with Some EEof => set_err s None | _ => s end)
+  | GReturn ret :: _ => do_return s ret
+  end.
+
+(* a generated method: shoot stops with a fatal message (inl), or the method
+   exists and, under scenario o, returns these values (inr (Some _));
+   inr None: the scenario is impossible for this method (a json.Marshal
+   failure in a method that sends no body) *)
+Definition method_returns (body_verb : bool) (results : list field) (o : outcome)
+  : fatal + option (list slot * list bevent) :=
   match cook_results results with
   | inl f => inl f
-  | inr c => inr (run_tail c o)
+  | inr c => inr (exec o (emit c body_verb) m0)
+  end.
+
+(* the failing call of the scenario is part of the method *)
+Definition scenario_ok (body_verb : bool) (o : outcome) : bool :=
+  match o with
+  | OFail StMarshal _ => body_verb
+  | _ => true
   end.
 
 (* ---- reading a returned tuple: (result?, response, error) by position *)
@@ -266,9 +383,11 @@ Arguments SVal {V X} v.
 Arguments SAddr {V X} v.
 Arguments read_all {X} b.
 Arguments classify {X} status b.
-Arguments errret {V X} c e.
-Arguments run_tail {V X} decode c o.
-Arguments method_returns {V X} decode results o.
+Arguments EEof {X}.
+Arguments exec {V X} decode o p s.
+Arguments m0 {V X}.
+Arguments method_returns {V X} decode body_verb results o.
+Arguments scenario_ok {X} body_verb o.
 Arguments view {V X} l.
 Arguments rv_result {V X} _.
 Arguments rv_resp {V X} _.
